@@ -73,6 +73,8 @@ namespace c18
         virtual LoadStoreOutcome load_store(void* p, size_t n) = 0;
         // is_aligned<A>(q) for every x86 architecture and get_alignment_offset on q = p + byte_off
         virtual PredOutcome predicates(const void* q) const = 0;
+        // xsimd::aligned_malloc reports failure by returning nullptr; the allocator reports it by throwing
+        virtual bool reports_failure_by_null() const { return false; }
     };
 
     // factories, defined in clients_*.cpp
@@ -86,6 +88,7 @@ namespace c18
     void make_clients_over32(std::vector<ClientBase*>&);
     void make_clients_over64(std::vector<ClientBase*>&);
     void make_clients_default(std::vector<ClientBase*>&);
+    void make_clients_raw(std::vector<ClientBase*>&);
 
     struct Pod24
     {
